@@ -21,8 +21,114 @@ mod viewreads;
 
 use std::{fs, path::Path};
 
+thread_local! {
+    /// identifier renames (actual -> canonical) computed once from the container definitions and helper shapes
+    static RENAMES: std::cell::RefCell<Option<Vec<(String, String)>>> = std::cell::RefCell::new(None);
+}
+
+fn squash_ty(t: &syn::Type) -> String {
+    toks(t).chars().filter(|c| !c.is_whitespace()).collect()
+}
+
+/// Canonical names of the containers' private fields (by type) and of `Rodeo`'s private helper functions (by what
+/// their bodies do).  A tree in which a maintainer renamed `strings` to `interned` or `get_string_entry_mut` to
+/// `find_entry` is read as if it still used the names the translators know; nothing else is touched.
+fn compute_renames(src_dir: &Path) -> Vec<(String, String)> {
+    let mut out: Vec<(String, String)> = Vec::new();
+    let mut add = |actual: String, canon: &str, out: &mut Vec<(String, String)>| {
+        if actual != canon && !out.iter().any(|(a, _)| *a == actual) {
+            out.push((actual, canon.to_string()));
+        }
+    };
+    for (file, strukt) in [("rodeo.rs", "Rodeo"), ("threaded_rodeo.rs", "ThreadedRodeo"), ("reader.rs", "RodeoReader"), ("resolver.rs", "RodeoResolver")] {
+        let Ok(text) = fs::read_to_string(src_dir.join(file)) else { continue };
+        let Ok(parsed) = syn::parse_file(&text) else { continue };
+        for item in &parsed.items {
+            let syn::Item::Struct(st) = item else { continue };
+            if st.ident != strukt {
+                continue;
+            }
+            let hasher_param = st.generics.type_params().nth(1).map(|t| t.ident.to_string());
+            for f in &st.fields {
+                let Some(id) = &f.ident else { continue };
+                let ty = squash_ty(&f.ty);
+                let canon = if ty == "Vec<&'staticstr>" || ty.starts_with("DashMap<K,&'staticstr") {
+                    Some("strings")
+                } else if ty.starts_with("HashMap<K,(),()>") || ty == "StringMap<K>" || ty.starts_with("DashMap<&'staticstr,K") {
+                    Some("map")
+                } else if ty == "Arena" || ty == "LockfreeArena" {
+                    Some("arena")
+                } else if ty == "AnyArena" {
+                    Some("__arena")
+                } else if ty == "AtomicUsize" {
+                    Some("key")
+                } else if Some(&ty) == hasher_param.as_ref() {
+                    Some("hasher")
+                } else {
+                    None
+                };
+                if let Some(c) = canon {
+                    add(id.to_string(), c, &mut out);
+                }
+            }
+        }
+        if file == "rodeo.rs" {
+            for item in &parsed.items {
+                let syn::Item::Fn(f) = item else { continue };
+                let body: String = toks(&f.block).chars().filter(|c| !c.is_whitespace()).collect();
+                let name = f.sig.ident.to_string();
+                if body.contains(".raw_entry_mut().from_hash(") && !body.contains("insert_with_hasher(") && !body.contains("store_str(") {
+                    add(name, "get_string_entry_mut", &mut out);
+                } else if body.contains("insert_with_hasher(") && !body.contains("from_hash(") && !body.contains("store_str(") {
+                    add(name, "insert_string", &mut out);
+                } else if body.contains("store_str(") && body.contains(".push(") && f.sig.receiver().is_none() {
+                    add(name, "clone_strings_into", &mut out);
+                }
+            }
+        }
+    }
+    out
+}
+
+fn apply_renames(text: &str, renames: &[(String, String)]) -> String {
+    if renames.is_empty() {
+        return text.to_string();
+    }
+    // identifier-wise replacement (no regex crate): split on identifier boundaries
+    let mut out = String::with_capacity(text.len());
+    let mut cur = String::new();
+    let flush = |cur: &mut String, out: &mut String| {
+        if !cur.is_empty() {
+            match renames.iter().find(|(a, _)| a == cur) {
+                Some((_, c)) => out.push_str(c),
+                None => out.push_str(cur),
+            }
+            cur.clear();
+        }
+    };
+    for ch in text.chars() {
+        if ch.is_alphanumeric() || ch == '_' {
+            cur.push(ch);
+        } else {
+            flush(&mut cur, &mut out);
+            out.push(ch);
+        }
+    }
+    flush(&mut cur, &mut out);
+    out
+}
+
 pub fn parse_file(path: &Path) -> syn::File {
     let src = fs::read_to_string(path).unwrap_or_else(|e| panic!("read {}: {e}", path.display()));
+    // the source directory is the ancestor named `src`
+    let src_dir = path.ancestors().find(|a| a.file_name().map(|n| n == "src").unwrap_or(false)).map(|a| a.to_path_buf());
+    let renames = RENAMES.with(|r| {
+        if r.borrow().is_none() {
+            *r.borrow_mut() = Some(src_dir.as_deref().map(compute_renames).unwrap_or_default());
+        }
+        r.borrow().clone().unwrap()
+    });
+    let src = apply_renames(&src, &renames);
     syn::parse_file(&src).unwrap_or_else(|e| panic!("parse {}: {e}", path.display()))
 }
 
